@@ -109,5 +109,8 @@ func H_C05() {
 	s3, err := db2.NewSnapshot()
 	vAssert(err == nil && s3 != nil, "NewSnapshot on restored instance")
 	vScanCheck(db2, c, s3, &g, "restored instance after later operations")
+	// the snapshot returned by LoadFromDisk is itself an immutable view while it stays open
+	g0 := ghosts[j]
+	vScanCheck(db2, c, snap2, &g0, "restored snapshot after later operations on the restored instance")
 	vReach("c05-done")
 }
